@@ -1,11 +1,120 @@
 import PeptVerif.Model.ModDbGen
-/-! C10 property theorems (being filled in) -/
+import PeptVerif.Lemmas.ModDbSpelling
+import PeptVerif.Props.C10TabU
+import PeptVerif.Props.C10TabP
+import PeptVerif.Props.C10TabX
+/-!
+C10 — a modification means the same thing however it is spelled.
+
+`T = Gen.tables` are the vocabularies regenerated from the repo under test on every run. The table facts come from
+`Props/C10Tab{U,P,X}.lean` (kernel evaluation); everything here is derived from them by table-independent lemmas
+(`Lemmas/ModDbLemmas.lean`, `Lemmas/ModDbSpelling.lean`), for every entry, every documented prefix in ANY letter case,
+both mass kinds and the composition, "same error" included (`entryMass` / `entryCompParsed` are `Except` values).
+-/
 namespace C10
-open ModDb Formula
+open ModDb Formula KSort
+
+abbrev T : Tables := Gen.tables
 
 /-- the generated tables have the advertised sizes (guards against a silently truncated translation) -/
 theorem table_sizes : Gen.Unimod.entries.length = Gen.Unimod.count ∧ Gen.PsiMod.entries.length = Gen.PsiMod.count
     ∧ Gen.XlMod.entries.length = Gen.XlMod.count ∧ Gen.Mono.entries.length = Gen.Mono.count := by
   decide +kernel
+
+/-! ## obligation 1: prefix stripping (table independent) -/
+
+/-- For every key `k` (colons, brackets, anything) and every documented prefix `p` of the five families, spelled in any
+letter case (`lower p' = p`), `_strip_*_str (p' ++ k) = k`. Holds since fix 6511c11 (`split(':', 1)[1]`). -/
+theorem strip_prefix_key (ps : List Str) (hps : ps ∈ [pUnimod, pPsi, pXlmod, pResid, pGno]) (p p' : Str) (hp : p ∈ ps)
+    (hl : lower p' = p) (k : Str) : stripPrefix ps (p' ++ k) = k := by
+  have hall : ∀ ps ∈ [pUnimod, pPsi, pXlmod, pResid, pGno], ∀ p ∈ ps, goodPrefix p = true := by decide
+  exact stripPrefix_spelled hp (hall ps hps p hp) hl k
+
+example : stripPrefix pUnimod (str% "uNiMoD:Label:13C(6)") = str% "Label:13C(6)" := by decide
+
+/-- the code before the repair (`split(':')[1]`) cut the key at its second colon: the witness replayed by the harness -/
+theorem strip_old_code_cut_at_second_colon :
+    stripPrefixOld pUnimod (str% "U:Label:13C(6)") = str% "Label" ∧
+    stripPrefixOld pUnimod (str% "UNIMOD:ICAT-G:2H(8)") = str% "ICAT-G" := by decide
+
+/-! ## obligation 2 → 3: the hygiene facts of the generated tables, bundled -/
+
+theorem all_clean {db : List Entry} (h : db.all entryClean = true) :
+    ∀ e ∈ db, keyClean e.id = true ∧ keyClean e.name = true := by
+  intro e he
+  have := List.all_eq_true.mp h e he
+  simpa [entryClean] using this
+
+theorem all_notNumeric {db : List Entry} (h : db.all nameNotNumeric = true) : ∀ e ∈ db, convertType e.name = .str := by
+  intro e he
+  have := List.all_eq_true.mp h e he
+  simpa [nameNotNumeric] using this
+
+theorem vocab_facts : VocabFacts T := by
+  have hcross := nodup_of_msort _ C10TabP.psimod_cross_distinct
+  have hsplit := List.nodup_append.mp hcross
+  refine
+    { uKeys := keysOK_of_check C10TabU.unimod_keys_distinct
+      pKeys := keysOK_of_nodup hsplit.2.1
+      xKeys := keysOK_of_check C10TabX.xlmod_keys_distinct
+      uClean := all_clean C10TabU.unimod_keys_clean
+      pClean := all_clean C10TabP.psimod_keys_clean
+      xClean := all_clean C10TabX.xlmod_keys_clean
+      uNum := all_notNumeric C10TabU.unimod_names_not_numeric
+      pNum := all_notNumeric C10TabP.psimod_names_not_numeric
+      cross := ?_ }
+  intro e he hn
+  have hmem : e.name ∈ (Gen.Unimod.entries.map (·.name)).filter (fun n => !collisions.contains n) := by
+    simp only [List.mem_filter, List.mem_map, Bool.not_eq_true', List.contains_eq_mem, decide_eq_false_iff_not]
+    exact ⟨⟨e, he, rfl⟩, hn⟩
+  have hdisj := hsplit.2.2 e.name hmem
+  constructor
+  · apply lookupLast_none
+    intro e' he' heq
+    exact hdisj e'.id (by simp only [keysOf, List.mem_append, List.mem_map]; exact Or.inl ⟨e', he', rfl⟩) heq.symm
+  · apply lookupLast_none
+    intro e' he' heq
+    exact hdisj e'.name (by simp only [keysOf, List.mem_append, List.mem_map]; exact Or.inr ⟨e', he', rfl⟩) heq.symm
+
+/-! ## obligation 3: spelling invariance -/
+
+/-- Unimod, prefixed spellings: `U:` / `UNIMOD:` in any letter case, followed by the name (215 names contain colons, 51
+brackets) or the accession, give the entry's own mono / average mass — or its own error — and its own composition. -/
+theorem spelling_invariant_unimod_prefixed (e : Entry) (he : e ∈ Gen.Unimod.entries) (p p' : Str) (hp : p ∈ pUnimod)
+    (hl : lower p' = p) :
+    (∀ mono, modMass T (p' ++ e.name) mono = entryMass T e mono ∧ modMass T (p' ++ e.id) mono = entryMass T e mono) ∧
+    modComp T (p' ++ e.name) = entryCompParsed e ∧ modComp T (p' ++ e.id) = entryCompParsed e :=
+  ⟨fun mono => unimod_prefixed_mass vocab_facts he hp hl mono, unimod_prefixed_comp vocab_facts he hp hl⟩
+
+/- FULL statement for the bare Unimod name: `∀ e ∈ Unimod, modMass T e.name mono = entryMass T e mono`.
+   It is FALSE on the current tables for the two names that are also PSI-MOD names (the bare name is looked up in
+   PSI-MOD first, whose average mass has two decimals): see `bare_name_full_false_on_current_tables`. -/
+/-- Unimod, bare name: resolves to the entry's own values whenever the name is not one of the two PSI-MOD collisions -/
+theorem spelling_invariant_unimod_bare_partial (e : Entry) (he : e ∈ Gen.Unimod.entries) (hn : e.name ∉ collisions) :
+    (∀ mono, modMass T e.name mono = entryMass T e mono) ∧ modComp T e.name = entryCompParsed e :=
+  ⟨fun mono => unimod_bare_mass vocab_facts he hn mono, unimod_bare_comp vocab_facts he hn⟩
+
+/-- PSI-MOD: bare name, and `M:` / `MOD:` / `PSI-MOD:` in any letter case followed by name or accession -/
+theorem spelling_invariant_psimod (e : Entry) (he : e ∈ Gen.PsiMod.entries) (p p' : Str) (hp : p ∈ pPsi)
+    (hl : lower p' = p) :
+    (∀ mono, modMass T e.name mono = entryMass T e mono ∧ modMass T (p' ++ e.name) mono = entryMass T e mono ∧
+      modMass T (p' ++ e.id) mono = entryMass T e mono) ∧
+    modComp T e.name = entryCompParsed e ∧ modComp T (p' ++ e.name) = entryCompParsed e ∧
+      modComp T (p' ++ e.id) = entryCompParsed e :=
+  ⟨fun mono => ⟨psi_bare_mass vocab_facts he mono, psi_prefixed_mass vocab_facts he hp hl mono⟩,
+    psi_bare_comp vocab_facts he, psi_prefixed_comp vocab_facts he hp hl⟩
+
+/-- XLMOD (prefixed spellings only): `X:` / `XLMOD:` in any letter case followed by name or accession -/
+theorem spelling_invariant_xlmod (e : Entry) (he : e ∈ Gen.XlMod.entries) (p p' : Str) (hp : p ∈ pXlmod)
+    (hl : lower p' = p) :
+    (∀ mono, modMass T (p' ++ e.name) mono = entryMass T e mono ∧ modMass T (p' ++ e.id) mono = entryMass T e mono) ∧
+    modComp T (p' ++ e.name) = entryCompParsed e ∧ modComp T (p' ++ e.id) = entryCompParsed e :=
+  ⟨fun mono => xlmod_prefixed_mass vocab_facts he hp hl mono, xlmod_prefixed_comp vocab_facts he hp hl⟩
+
+/-- "same error": an entry without mass and without composition gives `UnknownModificationMassError` through every
+spelling, one without composition gives `InvalidCompositionError` (436 PSI-MOD and 915 XLMOD entries) -/
+theorem entry_without_mass (e : Entry) (mono : Bool) (hm : e.mono = none) (ha : e.avg = none) (hc : e.comp = none) :
+    entryMass T e mono = .error .unknownModMass ∧ entryCompParsed e = .error .invalidComp := by
+  cases mono <;> simp [entryMass, entryCompParsed, entryComp, hm, ha, hc]
 
 end C10
